@@ -305,6 +305,8 @@ structure Frame where
   ccall : Bool := false
   /-- `context._locals(__M_locals)` is passed by the def stubs declared in this function -/
   useLocals : Bool := false
+  /-- (`ccall` frame of the defs of a `<%call>`) names the defs never take from the enclosing scopes: `caller` -/
+  blocks : List Name := []
   deriving Repr
 
 def tagsOf (own : List (Name × Nat)) (x : Name) : List Nat :=
@@ -390,7 +392,10 @@ def Spec.scopeLookup : List Frame → Nat → Name → Option (Nat × SCell)
     if x ∈ f.params then some (d, .param)
     else match tagsOf f.own x with
       | t :: ts => some (d, .assigned (t :: ts))
-      | [] => if x ∈ f.defs then some (d, .defFn) else Spec.scopeLookup fs (d + 1) x
+      | [] =>
+        if x ∈ f.defs then some (d, .defFn)
+        else if x ∈ f.blocks then none
+        else Spec.scopeLookup fs (d + 1) x
 
 /-- import= namespaces, then context data, then builtins, then UNDEFINED / strict NameError -/
 def Spec.fetch (strict : Bool) (rt : RT) (x : Name) : SVal :=
